@@ -140,7 +140,7 @@ func relKind(typ string) string {
 // R-FRESH-DEP/relid
 // ---------------------------------------------------------------------------
 
-func ruleFreshRelID(r *Run) { freshRelID(r, "", 10) }
+func ruleFreshRelID(r *Run) { freshRelID(r, "", 4) }
 
 func ruleFreshRelIDImage(r *Run) { freshRelID(r, "image", 1) }
 
@@ -291,7 +291,7 @@ func collectPartStores(p *Program) []partStore {
 	return out
 }
 
-func ruleRelAttach(r *Run) { relAttach(r, nil, 12) }
+func ruleRelAttach(r *Run) { relAttach(r, nil, 5) }
 
 func ruleRelAttachImage(r *Run) { relAttach(r, map[string]bool{"image": true}, 1) }
 
@@ -496,7 +496,7 @@ func refFlow(r *Run, wantHF, wantImg bool) {
 		})
 	}
 	if wantHF {
-		r.Min("reference_call_sites", nSites, 6)
+		r.Min("reference_call_sites", nSites, 2)
 	}
 	if !wantImg {
 		return
